@@ -60,7 +60,7 @@ type vxC15Case struct {
 	TS         int64   `json:"ts"`
 	Payload    bool    `json:"payload"` // custom payload (v4+)
 	Spec       bool    `json:"spec"`    // idempotent query with a speculative-execution policy (never fires: 10 s delay) - the executor's other route
-	Fault      string  `json:"fault"`   // "" | error | close | unprepared
+	Fault      string  `json:"fault"`   // "" | error | close | unprepared | nostate (page FaultAt says there are more pages and carries an empty paging state)
 	FaultAt    int     `json:"fault_at"`
 	ErrCode    int     `json:"err_code"`
 	Holds      []int   `json:"holds"`  // Holds[j]: -1 none; r: reply for page j is withheld until the consumer got r rows of page j-1
@@ -155,8 +155,13 @@ func vxC15Draw(t *rapid.T, manual bool) *vxC15Case {
 	if c.Prepared {
 		faults = append(faults, "unprepared")
 	}
+	if !manual && np >= 2 {
+		faults = append(faults, "nostate")
+	}
 	c.Fault = rapid.SampledFrom(faults).Draw(t, "fault")
-	if c.Fault != "" {
+	if c.Fault == "nostate" {
+		c.FaultAt = rapid.IntRange(0, np-2).Draw(t, "faultat")
+	} else if c.Fault != "" {
 		c.FaultAt = rapid.IntRange(0, np-1).Draw(t, "faultat")
 		if c.Fault == "error" {
 			c.ErrCode = rapid.SampledFrom(vxC15ErrCodes).Draw(t, "errcode")
@@ -354,6 +359,9 @@ func (e *vxC15Env) meta(page int, noMeta bool) *cqlspec.Metadata {
 	if page >= 0 && page < len(e.c.Pages)-1 {
 		m.HasMore = true
 		m.StateHex = hex.EncodeToString(vxC15State(e.c.Salt, page))
+		if e.c.Fault == "nostate" && page == e.c.FaultAt {
+			m.StateHex = "" // more pages announced, nothing to ask for them with
+		}
 	}
 	return m
 }
@@ -412,7 +420,7 @@ func (e *vxC15Env) handle(rc *vnode.ReqCtx) {
 			seen.Outcome = "overrun" // a driver that keeps asking is stopped; the sequence check reports it
 		case req.Kind == "EXECUTE" && !e.prepared[node+"/"+req.IDHex]:
 			seen.Outcome = "unprepared" // what Cassandra answers to an id it does not know
-		case c.Fault != "" && c.FaultAt == seen.Page && !e.faultDone:
+		case c.Fault != "" && c.Fault != "nostate" && c.FaultAt == seen.Page && !e.faultDone:
 			e.faultDone = true
 			seen.Outcome = c.Fault
 			if c.Fault == "unprepared" {
@@ -850,7 +858,7 @@ func vxC15Judge(c *vxC15Case, e *vxC15Env, its []vxC15Iteration) error {
 	switch {
 	case !c.Manual:
 		end := last
-		if c.Fault == "error" || c.Fault == "close" {
+		if c.Fault == "error" || c.Fault == "close" || c.Fault == "nostate" {
 			end = c.FaultAt
 		}
 		for p := 0; p <= end; p++ {
@@ -921,6 +929,11 @@ func vxC15Judge(c *vxC15Case, e *vxC15Env, its []vxC15Iteration) error {
 			end := last
 			if c.Fault == "error" || c.Fault == "close" {
 				end, faultHere = c.FaultAt-1, true
+			}
+			if c.Fault == "nostate" {
+				// the rows of the page itself are good; what follows cannot be asked for, and a request
+				// without a state would be the first page again
+				end, faultHere = c.FaultAt, true
 			}
 			for p := 0; p <= end; p++ {
 				want = append(want, vxC15PageRows(c, p)...)
